@@ -227,7 +227,15 @@ func c11Normal(s *w.State) string {
 			e.Status.Desired, e.Status.Current, e.Status.Ready, e.Status.Available, e.Status.UpToDate))
 	}
 	for _, r := range s.ERSs() {
-		out = append(out, fmt.Sprintf("ers %s tpl=%s status=%s d/c/r/a=%d/%d/%d/%d", r.Name, w.TemplateTag(&r.Spec.Template), r.Status.Status, r.Status.Desired, r.Status.Current, r.Status.Ready, r.Status.Available))
+		// the two conditions that describe failures: at the end nothing may still claim one (absent and "no failure" are the same)
+		flags := ""
+		if cd := w.ERSCond(r, v1.ConditionTypePodsCleanupDone); cd != nil && cd.Status == corev1.ConditionFalse {
+			flags += " PodsCleanupDone=False"
+		}
+		if w.ERSCondTrue(r, v1.ConditionTypeReconcileError) {
+			flags += " ReconcileError=True"
+		}
+		out = append(out, fmt.Sprintf("ers %s tpl=%s status=%s d/c/r/a=%d/%d/%d/%d%s", r.Name, w.TemplateTag(&r.Spec.Template), r.Status.Status, r.Status.Desired, r.Status.Current, r.Status.Ready, r.Status.Available, flags))
 	}
 	for _, x := range s.Settings() {
 		out = append(out, fmt.Sprintf("setting %s %s", x.Name, x.Status.Status))
@@ -370,7 +378,7 @@ func c11Run(t *testing.T, run *h.Run, sc *w.Scenario, c c11Scenario, faults []c1
 func c11DropLeftovers(n string) string {
 	var out []string
 	for _, l := range strings.Split(n, "\n") {
-		if strings.HasPrefix(l, "ers ") && strings.HasSuffix(l, "status=unknown d/c/r/a=0/0/0/0") {
+		if strings.HasPrefix(l, "ers ") && strings.Contains(l, "status=unknown d/c/r/a=0/0/0/0") {
 			continue
 		}
 		out = append(out, l)
